@@ -12,7 +12,7 @@ def run(ctx, seed_offset=0):
     quick = ctx['tier'] == 'quick'
     c2 = dict(ctx, seed=ctx['seed'] + seed_offset)
     progs = W.run_harness(c2, ['-random', '250' if quick else '2000', '-seqlen', '6' if quick else '7', '-maxh', '4', '-maxr', '20'], 'c09_%d' % seed_offset)
-    good = W.evaluate(c2, res, progs, 'c09_violations', 'c09_%d' % seed_offset, 'C09', WHAT)
+    good = W.evaluate(c2, res, progs, 'c09_lviolations', 'c09_%d' % seed_offset, 'C09', WHAT)
     seqs = [p for p in good if p['kind'] == 'sequence']
     res.extra['exhaustive'] = True
     res.extra['exhaustive_space'] = 'all %d middleware registration sequences up to length %d over {router-level, handler A, handler B}' % (len(seqs), 6 if quick else 7)
